@@ -442,6 +442,7 @@ class List(list, base.Symbolic, pg_typing.CustomTyping):
         # Detach old value from object tree.
         if isinstance(old_value, base.TopologyAware):
           old_value.sym_setparent(None)
+          old_value.sym_setpath(utils.KeyPath())
     else:
       if self.max_size is not None and len(self) >= self.max_size:
         raise ValueError(f'List reached its max size {self.max_size}.')
@@ -653,6 +654,7 @@ class List(list, base.Symbolic, pg_typing.CustomTyping):
     # Detach the removed value from the object tree.
     if isinstance(old_value, base.TopologyAware):
       old_value.sym_setparent(None)
+      old_value.sym_setpath(utils.KeyPath())
     self._update_children_index()
     return base.FieldUpdate(
         self.sym_path + index, self,
@@ -794,6 +796,7 @@ class List(list, base.Symbolic, pg_typing.CustomTyping):
     for item in old_values:
       if isinstance(item, base.TopologyAware):
         item.sym_setparent(None)
+        item.sym_setpath(utils.KeyPath())
     super().clear()
     self._notify_repositioned(old_values)
 
